@@ -142,19 +142,7 @@ def run_one(ck, prog):
             clones = T.call_blocks(c, T.M + "__clone")
 
     # ---- C06.2 never while the kernel can still write -------------------------------------------------------------------
-    for p in (T.CLOSURE, T.PANIC):
-        fn = prog.fns.get(p)
-        if not ck.anchor("C06.2", p, fn):
-            continue
-        c = prog.ctx(fn)
-        tid = []
-        for bb, t in c.cfg.calls(lambda t: is_raw_syscall(t.get("callee"))):
-            a = c.args(bb)
-            if a and nr_name(a[0]) == "SET_TID_ADDRESS":
-                tid.append((bb, fold(a[1]) if len(a) > 1 else None))
-        ds = T.call_blocks(c, dealloc)
-        ok = bool(ds) and all(any(c.cfg.dominates(tb, d) and tb != d and v == 0 for tb, v in tid) for d in ds)
-        ck.ob("C06.2", f"clear-tid-reset-before-free|{p}", ok, fn=p, detail="on the thread side SET_TID_ADDRESS(0) must precede freeing the block: otherwise the kernel writes 0 into (and futex-wakes) freed memory when the thread exits")
+    T.check_clear_tid_reset(ck, prog, "C06.2")
 
     # the handle side may free the join block only after the kernel's exit write (CLONE_CHILD_CLEARTID clears the futex word inside
     # the block and futex-wakes it when the thread is gone): every free in join / Drop is dominated by wait_for_exit on the same block
